@@ -156,6 +156,18 @@ def producer_cap(ctx, F):
                    and c.func.attr == 'extend' and c.args and isinstance(c.args[0], ast.Subscript)
                    and isinstance(c.args[0].value, ast.Name)]
             ext_ok = bool(ext) and all(e.args[0].value.id == cont for e in ext)
+            if not ext and cont is not None:
+                # the batch as one expression: `[c for group in CONT[:n] for c in group]` with n assigned by the accept statement(s)
+                acc_names = {a_.ast.targets[0].id for a_ in accept}
+                flats = [x for x in F.own_nodes() if isinstance(x, ast.ListComp) and len(x.generators) == 2
+                         and isinstance(x.generators[0].iter, ast.Subscript) and isinstance(x.generators[0].iter.value, ast.Name)
+                         and isinstance(x.generators[0].iter.slice, ast.Slice)]
+                ext_ok = bool(flats) and all(
+                    x.generators[0].iter.value.id == cont and x.generators[0].iter.slice.lower is None and isinstance(x.generators[0].iter.slice.upper, ast.Name)
+                    and x.generators[0].iter.slice.upper.id in acc_names and not x.generators[0].ifs and not x.generators[1].ifs
+                    and isinstance(x.generators[0].target, ast.Name) and isinstance(x.generators[1].iter, ast.Name)
+                    and x.generators[1].iter.id == x.generators[0].target.id and isinstance(x.elt, ast.Name) and isinstance(x.generators[1].target, ast.Name)
+                    and x.elt.id == x.generators[1].target.id for x in flats)
             if cont is None or not ext_ok:
                 return None, 'cannot relate the counted groups to the groups added to the batch in %s()' % F.name
             return True, 'cap `%s > len(C.hopeful()) - E.seatsLeftToFill()` -> break (line %d) precedes every accept ' \
@@ -206,6 +218,14 @@ def _container_of(ctx, F, grp, cfg, at):
             if d.kind == 'stmt' and isinstance(d.ast, ast.Assign) and isinstance(d.ast.value, ast.Subscript) \
                     and isinstance(d.ast.value.value, ast.Name):
                 vals.add(d.ast.value.value.id)
+            elif d.kind == 'iter' and isinstance(d.ast, ast.For):
+                # `for g, (group, nxt) in enumerate(zip(CONT, CONT[1:]))`: group ranges over CONT from its first element
+                from ..prov import Deriv
+                it = Deriv._through_pairing(d.ast.target, d.ast.iter, grp.id)
+                if isinstance(it, ast.Name):
+                    vals.add(it.id)
+                else:
+                    return None
             else:
                 return None
         if len(vals) == 1:
